@@ -40,10 +40,18 @@ func (c10) Gen(rng *rand.Rand, tier string, k int) *Case {
 	if c.Impl == "file" {
 		c.Mode = []string{"", "", "empty-file-A", "header-only-A"}[rng.Intn(4)]
 	}
+	// three names per case: tickers with dots, names ending in the letters of the file suffix or
+	// in a dot, names that differ only in case, a blank inside
+	names := c10Names[:3]
+	if rng.Intn(3) == 0 {
+		pool := []string{"A", "BRK.B", "C.x.y", "btc", "vics", "x.", "Abc", "aBC", "csv", "a b", "s"}
+		rng.Shuffle(len(pool), func(i, j int) { pool[i], pool[j] = pool[j], pool[i] })
+		names = pool[:3]
+	}
 	next := map[string]int{}
 	n := 3 + rng.Intn(10)
 	for i := 0; i < n; i++ {
-		name := c10Names[rng.Intn(3)]
+		name := names[rng.Intn(3)]
 		switch x := rng.Intn(10); {
 		case x < 4:
 			cnt := rng.Intn(5)
